@@ -1,6 +1,7 @@
 package interp
 
 import (
+	"math"
 	"bytes"
 	"fmt"
 	"go/token"
@@ -328,6 +329,35 @@ func (i *interpreter) conv(t_dst, t_src types.Type, x value) value {
 				if types.Identical(dp.Elem(), up.t) || types.Identical(dp.Elem().Underlying(), up.t.Underlying()) {
 					return up.p
 				}
+				// float64 <-> uint64 reinterpretation (math.Float64bits written by hand): a
+				// converted copy - reads are exact, writes through the new pointer do not
+				// reach the original
+				if sb, ok1 := up.t.Underlying().(*types.Basic); ok1 {
+					if db, ok2 := dp.Elem().Underlying().(*types.Basic); ok2 {
+						cur := *up.p
+						var cell value
+						done := false
+						switch {
+						case sb.Kind() == types.Float64 && db.Kind() == types.Uint64:
+							switch c := cur.(type) {
+							case float64:
+								cell, done = math.Float64bits(c), true
+							case *sym:
+								cell, done = i.fromTerm(i.floatBits(c.t), types.Uint64), true
+							}
+						case sb.Kind() == types.Uint64 && db.Kind() == types.Float64:
+							switch c := cur.(type) {
+							case uint64:
+								cell, done = math.Float64frombits(c), true
+							case *sym:
+								cell, done = i.fromTerm(i.st.FPFromBits(c.t), types.Float64), true
+							}
+						}
+						if done {
+							return &cell
+						}
+					}
+				}
 				panic(unsupported(fmt.Sprintf("unsafe.Pointer cast from *%v to *%v", up.t, dp.Elem())))
 			}
 			if b, ok := ut_dst.(*types.Basic); ok && b.Kind() == types.UnsafePointer {
@@ -596,7 +626,7 @@ func (i *interpreter) rangeIter(x value, t types.Type) iter {
 		it := &mapIter{m: x}
 		if x != nil {
 			it.keys = append(it.keys, x.entries...)
-			if i.orderFree && len(it.keys) > 1 {
+			if i.orderFree && i.orderBudget > 0 && len(it.keys) > 1 {
 				it.keys = i.permute(it.keys)
 			}
 		}
@@ -611,16 +641,44 @@ func (i *interpreter) rangeIter(x value, t types.Type) iter {
 	panic(fmt.Sprintf("cannot range over %T", x))
 }
 
-// permute picks an arbitrary permutation by symbolic choice (selection without replacement).
+// permute picks another enumeration order by choice: any permutation of up to 3 entries, any
+// single transposition of more (the identity costs nothing, anything else one unit of the
+// deviation budget).
 func (i *interpreter) permute(es []*mapEntry) []*mapEntry {
-	rest := append([]*mapEntry(nil), es...)
-	var out []*mapEntry
-	for len(rest) > 1 {
-		k := i.freeChoice(len(rest), "order")
-		out = append(out, rest[k])
-		rest = append(rest[:k], rest[k+1:]...)
+	n := len(es)
+	if n <= 3 {
+		rest := append([]*mapEntry(nil), es...)
+		var out []*mapEntry
+		deviated := false
+		for len(rest) > 1 {
+			k := i.freeChoice(len(rest), "order")
+			if k != 0 {
+				deviated = true
+			}
+			out = append(out, rest[k])
+			rest = append(rest[:k], rest[k+1:]...)
+		}
+		if deviated {
+			i.orderBudget--
+		}
+		return append(out, rest...)
 	}
-	return append(out, rest...)
+	k := i.freeChoice(1+n*(n-1)/2, "order")
+	if k == 0 {
+		return es
+	}
+	i.orderBudget--
+	out := append([]*mapEntry(nil), es...)
+	k--
+	for a := 0; a < n; a++ {
+		if k < n-1-a {
+			b := a + 1 + k
+			out[a], out[b] = out[b], out[a]
+			break
+		}
+		k -= n - 1 - a
+	}
+	return out
 }
 
 // ---- type assertions ----
